@@ -476,34 +476,45 @@ def r8_edge_search(rule, root=None):
 def r8b_edge_endpoints(rule, root=None):
     """a sign-changing edge runs along one axis; its search starts at the end the table calls `start` (inside):
     along the edge's axis the start is at 0 exactly when the end corner has that axis bit set, and across it both
-    ends share the start corner's other two coordinates (coordinate k from bit k)"""
+    ends share the start corner's other two coordinates (coordinate k from bit k).  Read with naming lets folded,
+    so `let t = axis.trailing_zeros()` or `let i = (t + 1) % 3` are the expressions they name."""
     fn = builder_fn("leaf", root)
-    t = txt(fn["body"])
-    m = t.fmatch("let($A,$B)=if((e.end().index()&axis)!=0){(0,u16::MAX)}else{(u16::MAX,0)};")
-    if m is None:
-        m = t.fmatch("let($A,$B)=if((e.start().index()&axis)==0){(0,u16::MAX)}else{(u16::MAX,0)};")
-    if m is None:
-        m = t.fmatch("let($A,$B)=if((e.end().index()&axis)==0){(u16::MAX,0)}else{(0,u16::MAX)};")
+    body = fn["body"]
+    # names for the edge's own axis index and for the two other coordinates read as what they name
+    for _round in range(3):
+        for l_ in A.find(body, "Let"):
+            nm = A.binding_name(l_["pat"])
+            it_ = str(txt(l_["init"])) if l_.get("init") is not None else ""
+            if nm and not l_["pat"].get("mut") and nm != "axis" and re.fullmatch(r"axis\.trailing_zeros\(\)|\(\(axis\.trailing_zeros\(\)\+[12]\)%3\)", it_):
+                body = A._subst(body, nm, l_["init"])
+    t = txt(body)
+    AX = "axis.trailing_zeros()"
+    m = None
+    for pat in ("let($A,$B)=if((e.end().index()&axis)!=0){(0,u16::MAX)}else{(u16::MAX,0)};",
+                "let($A,$B)=if((e.end().index()&axis)==0){(u16::MAX,0)}else{(0,u16::MAX)};",
+                "let($A,$B)=if((e.start().index()&axis)==0){(0,u16::MAX)}else{(u16::MAX,0)};",
+                "let($A,$B)=if((e.start().index()&axis)!=0){(u16::MAX,0)}else{(0,u16::MAX)};"):
+        m = t.fmatch(pat)
+        if m is not None:
+            break
     if m is None:
         rule.bad("endpoints|along", "along its axis a search edge must start at 0 when the end corner has the axis bit set (and at the far side otherwise)", A.where(OCT, fn))
     else:
         rule.ok("along the edge's axis the inside end is opposite the outside corner's bit", file=OCT, line=fn["ln"])
-        m2 = t.fmatch("v[(axis.trailing_zeros()asusize)]=$A;start[edge_count]=v;v[(axis.trailing_zeros()asusize)]=$B;end[edge_count]=v;", bind=m)
+        m2 = t.fmatch("v[(%sasusize)]=$A;start[edge_count]=v;v[(%sasusize)]=$B;end[edge_count]=v;" % (AX, AX), bind=m)
         if m2 is None:
             rule.bad("endpoints|store", "the first coordinate of the pair goes to `start`, the second to `end`, both along `axis.trailing_zeros()`", A.where(OCT, fn))
         else:
             rule.ok("start takes the inside coordinate, end the outside one", file=OCT, line=fn["ln"])
     n = 0
     for off in (1, 2):
-        mk = t.fmatch("let$K=((axis.trailing_zeros()+%d)%%3);" % off)
-        if mk is None:
-            continue
-        if t.fmatch("v[($Kasusize)]=if(e.start()&Axis::new((1<<$K))){u16::MAX}else{0};", bind=mk) is not None:
+        k = "((%s+%d)%%3)" % (AX, off)
+        if ("v[(%sasusize)]=if(e.start()&Axis::new((1<<%s))){u16::MAX}else{0};" % (k, k)) in t:
             n += 1
             rule.ok("coordinate (axis + %d) mod 3 comes from the same bit of the start corner" % off, file=OCT, line=fn["ln"])
-        else:
+        elif ("v[(%sasusize)]=" % k) in t:
             rule.bad("endpoints|across|%d" % off, "coordinate (axis + %d) mod 3 of a search edge must be u16::MAX exactly when the start corner has that same bit set" % off, A.where(OCT, fn))
-    if n == 0 and "axis.trailing_zeros()+1" not in t:
+    if n == 0 and "%s+1" % AX not in t:
         rule.skip("edge endpoints across the axis", "the other two coordinates are not derived as (axis + 1) % 3 / (axis + 2) % 3", count=True)
 
 
